@@ -33,6 +33,13 @@ fn main() {
         Err(e) => { eprintln!("{}", e); std::process::exit(2); }
       }
     }
+    "trace" => {
+      if args.len() < 3 { usage(); }
+      match pv::props::build::trace_digest_of_file(Path::new(&args[2])) {
+        Ok(d) => { println!("digest {}", d); std::process::exit(0); }
+        Err(e) => { eprintln!("{}", e); std::process::exit(2); }
+      }
+    }
     _ => usage(),
   }
 }
